@@ -156,6 +156,13 @@ func Driver() int {
 				bin = rb
 				extraEnv = append(extraEnv, fmt.Sprintf("GORACE=log_path=%s halt_on_error=0 exitcode=0", filepath.Join(outDir, fmt.Sprintf("race-%d", i))), "VERIF_RACE_PASS=1")
 			}
+			if hb := os.Getenv("VERIF_386_BIN"); hb != "" && prop == "C14" {
+				extraEnv = append(extraEnv, fmt.Sprintf("VERIF_IMG_SHARDS=%d", shards-1))
+				if i == shards-1 {
+					bin = hb
+					extraEnv = append(extraEnv, "VERIF_HOST32=1")
+				}
+			}
 			cmd := exec.Command(bin, "-test.run", "^TestVerif$", "-test.timeout", "0")
 			cmd.Env = append(append(os.Environ(), extraEnv...),
 				"VERIF_MODE=shard", "VERIF_PROP="+prop, "VERIF_TIER="+tier,
@@ -392,8 +399,14 @@ func Driver() int {
 
 // confirmReplay re-executes a replay file in a fresh process; it must report the same signature.
 func confirmReplay(path, sig string) (bool, string) {
-	cmd := exec.Command(os.Args[0], "-test.run", "^TestVerif$", "-test.timeout", "0")
-	cmd.Env = append(os.Environ(), "VERIF_MODE=replay", "VERIF_REPLAY="+path)
+	bin := os.Args[0]
+	env := append(os.Environ(), "VERIF_MODE=replay", "VERIF_REPLAY="+path)
+	if hb := os.Getenv("VERIF_386_BIN"); hb != "" && strings.HasSuffix(sig, "/on-32-bit-host") {
+		bin = hb
+		env = append(env, "VERIF_HOST32=1")
+	}
+	cmd := exec.Command(bin, "-test.run", "^TestVerif$", "-test.timeout", "0")
+	cmd.Env = env
 	out, _ := cmd.CombinedOutput()
 	s := string(out)
 	return strings.Contains(s, "REPLAY-RESULT: reproduced signature="+sig+" "), s
